@@ -76,6 +76,10 @@ pub enum Expect {
     Respond { cmd: u8, data: Vec<Option<u8>>, what: &'static str, exact: bool },
     /// accepted request the properties say nothing specific about (may or may not respond), state unchanged
     Unspecified,
+    /// accepted Set/Force Endpoint ID request carrying an EID outside 0x01-0xFE: outside every
+    /// property's quantifier - response unjudged, and the model adopts the EID cells the context
+    /// reports afterwards (see `Model::resync`)
+    Resync,
 }
 
 #[derive(Clone, Debug)]
@@ -118,7 +122,12 @@ impl Model {
                     0x01 => {
                         let op = data[0];
                         let eid = data[1];
-                        if op == 0 || op == 1 {
+                        if (op == 0 || op == 1) && (eid == 0x00 || eid == 0xFF) {
+                            // C13 (and C12) quantify over EIDs 0x01-0xFE: an endpoint may adopt the
+                            // null / broadcast EID or refuse it. The caller re-synchronises the
+                            // model with whatever the context reports after this step.
+                            Expect::Resync
+                        } else if op == 0 || op == 1 {
                             self.req_eid = eid;
                             self.resp_eid = eid;
                             // Success, assignment accepted (bits 5:4 == 0), new EID; pool byte free
@@ -173,6 +182,12 @@ impl Model {
                 }
             }
         }
+    }
+
+    /// After an `Expect::Resync` step: take the context's word for its EID cells.
+    pub fn resync(&mut self, eids: (u8, u8)) {
+        self.req_eid = eids.0;
+        self.resp_eid = eids.1;
     }
 
     pub fn apply_non_packet(&mut self, op: &Op) {
@@ -315,7 +330,7 @@ pub fn judge(exp: Option<&Expect>, obs: &Obs, m: &Model) -> Vec<Disc> {
         });
     }
     match exp {
-        None | Some(Expect::Unspecified) => {}
+        None | Some(Expect::Unspecified) | Some(Expect::Resync) => {}
         Some(Expect::Silent) => {
             if let Some(r) = &obs.resp {
                 v.push(Disc { cmd: None, cat: "unexpected-response", detail: format!("a {}-byte response {} was produced for an input that is not an accepted control request", r.len(), hex(r)) });
